@@ -27,6 +27,7 @@ MIN_KEYS = 60
 REQUIRED = [
     "reorient:geometries", "reorient:judged", "reorient:input-rotation", "reorient:input-mirrored",
     "reorient:canonical-48-of-48", "reorient:jitter:none", "reorient:jitter:large", "reorient:angle:15-25",
+    "reorient:angle:25-40",
     "sphere:judged", "sphere:nonempty-proper-subset", "sphere:default-radius", "sphere:default-radius:hit",
     "sphere:default-radius:miss", "sphere:ratio:0.99", "sphere:ratio:1.01", "sphere:exact-boundary-vertex",
     "plane:judged", "plane:through-0", "plane:through-3+", "plane:offset-inside-tolerance",
@@ -38,7 +39,8 @@ REQUIRED = [
 RULE = (
     "reorient: cube x anisotropic scale (10^U(-0.4,0.4) per axis) x size 10^U(-1,1), corner jitter class none / tiny "
     "(1e-7) / 5% / 15% / 25%, rigidly moved; observer within 0-5 / 5-15 / 15-25 deg of the outward normal of one of "
-    "the 6 sides, ceiling point likewise for one of the 4 perpendicular sides, both 5-100 block diameters away; kept "
+    "the 6 sides (plus a 25-40 deg class), ceiling point likewise for one of the 4 perpendicular sides, both 5-100 block "
+    "diameters away; kept "
     "only if convex and in general position (vf.xc18_oracle); all 48 initial numberings enumerated per geometry "
     "(exhaustive in that sub-space). finders: brute force over mesh.vertices for spheres (target vertex at 0.5, 0.99, "
     "1.01, 2 x radius; default radius at 0, 0.3, 3 x TOL; exact integer boundary) and planes (through 1, 2, 3 "
@@ -68,7 +70,7 @@ ASSUMPTIONS = [
 
 TOL = orc.TOL
 JITTER = {"none": 0.0, "tiny": 1e-7, "small": 0.05, "medium": 0.15, "large": 0.25}
-ANGLES = {"0-5": (0.0, 5.0), "5-15": (5.0, 15.0), "15-25": (15.0, 25.0)}
+ANGLES = {"0-5": (0.0, 5.0), "5-15": (5.0, 15.0), "15-25": (15.0, 25.0), "25-40": (25.0, 40.0)}
 PERP_SIDES = {s: [t for t in hexconv.SIDE_NAMES if t not in (s, orc.OPPOSITE[s])] for s in hexconv.SIDE_NAMES}
 
 
@@ -93,7 +95,7 @@ def _cone(rng, axis, lo_deg, hi_deg):
 # ======================================================================================================
 def gen_reorient(rng, jclass=None, aclass=None, front=None, top=None):
     jclass = jclass or rng.choice(["none", "tiny", "small", "medium", "medium", "large", "large"])
-    aclass = aclass or rng.choice(list(ANGLES))
+    aclass = aclass or rng.choice(["0-5", "5-15", "15-25", "25-40", "25-40"])
     j, (alo, ahi) = JITTER[jclass], ANGLES[aclass]
     shrunk = False
     for attempt in range(200):
